@@ -180,7 +180,12 @@ func genTemplates(t *rapid.T, want int, vocab []string, maxSeg int, rootOK bool)
 		out = append(out, Tmpl{Path: "/", Methods: genMethods(t)})
 		seen[""] = true
 	}
-	for i := 0; i < want; i++ {
+	// a derived shape often collides with an existing one: large tables keep drawing until they are full
+	tries := want
+	if want >= 20 {
+		tries = 6 * want
+	}
+	for i := 0; i < tries && len(shapes) < want; i++ {
 		s := genShape(t, shapes, vocab, maxSeg)
 		key := "/" + strings.Join(s, "/")
 		if seen[key] {
@@ -417,6 +422,11 @@ func instantiateComposite(t *rapid.T, s seg) string {
 				v = rapid.StringN(1, 4, -1).Draw(t, "crune")
 			}
 			e := encodeValue(t, v)
+			if rapid.IntRange(0, 3).Draw(t, "cplain") == 0 {
+				// the plain texts a literal sibling ("/a.json" next to "/{id}.json") is made of
+				v = rapid.SampledFrom([]string{"a", "b"}).Draw(t, "cplainv")
+				e = v
+			}
 			ok := v != ""
 			for _, sp := range seps {
 				if strings.Contains(v, sp) || strings.Contains(e, sp) {
@@ -474,6 +484,39 @@ func GenComposite(t *rapid.T) Case {
 			c.Tmpls = append(c.Tmpls, Tmpl{Path: p, Methods: genMethods(t)})
 		} else {
 			c.Tmpls = []Tmpl{{Path: p, Methods: genMethods(t)}}
+		}
+	}
+	// a literal sibling of a composite template: the same template with one composite segment spelled out
+	if rapid.IntRange(0, 2).Draw(t, "litsibling") == 0 {
+		ti := rapid.IntRange(0, len(c.Tmpls)-1).Draw(t, "sibof")
+		segs, _ := parseTemplate(c.Tmpls[ti].Path)
+		for j, sg := range segs {
+			if !sg.composite() {
+				continue
+			}
+			var b strings.Builder
+			for _, p := range sg.Parts {
+				if p.Name == "" {
+					b.WriteString(p.Lit)
+				} else {
+					b.WriteString(rapid.SampledFrom([]string{"a", "b"}).Draw(t, "sibval"))
+				}
+			}
+			lit := b.String()
+			if strings.Trim(lit, "abcdefghijklmnopqrstuvwxyz0123456789._~-") != "" {
+				break // ':' ',' ';' '=' cannot be written literally in a template (the router's own pattern syntax)
+			}
+			raw := strings.Split(strings.TrimPrefix(c.Tmpls[ti].Path, "/"), "/")
+			raw[j] = lit
+			sib := Tmpl{Path: "/" + strings.Join(raw, "/"), Methods: genMethods(t)}
+			if rapid.Bool().Draw(t, "sibsame") {
+				sib.Methods = append([]string{}, c.Tmpls[ti].Methods...)
+			}
+			probe := Case{Base: c.Base, Tmpls: append(append([]Tmpl{}, c.Tmpls...), sib)}
+			if _, why := InDomain(probe); why == "" {
+				c.Tmpls = probe.Tmpls
+			}
+			break
 		}
 	}
 	api, _ := parseAPI(c)
